@@ -167,7 +167,7 @@ SubLenient(A, B) == Sub(A, B, Lenient)
 Verdict(A, B) == IF SubStrict(A, B) THEN "yes" ELSE IF SubLenient(A, B) THEN "either" ELSE "no"
 
 (* which don't-care classes, switched on alone, change the answer (for the evidence) *)
-Why(A, B) == {c \in DCClasses : Sub(A, B, Flags({c})) # SubStrict(A, B)}
+Why(A, B) == IF Verdict(A, B) # "either" THEN {} ELSE {c \in DCClasses : Sub(A, B, Flags({c}))}
 
 ---------------------------------------------------------------------------
 (* 4. LAWS (stated for arbitrary A, B and a third annotation C; MC_TypeCompat *)
@@ -175,22 +175,27 @@ Why(A, B) == {c \in DCClasses : Sub(A, B, Flags({c})) # SubStrict(A, B)}
 RECURSIVE HasNoAnn(_)
 HasNoAnn(A) == A.k = "NoAnn" \/ \E i \in DOMAIN A.a : HasNoAnn(A.a[i])
 
-LawMonotone(A, B)   == \A S \in SUBSET DCClasses :
-                           /\ (SubStrict(A, B) => Sub(A, B, Flags(S)))
-                           /\ (Sub(A, B, Flags(S)) => SubLenient(A, B))
+LawMonotone(A, B)   == \A c \in DCClasses :
+                           /\ (SubStrict(A, B) => Sub(A, B, Flags({c})))
+                           /\ (Sub(A, B, Flags({c})) => SubLenient(A, B))
 LawReflexive(A)     == SubStrict(A, A)
 LawAnyTop(A)        == SubStrict(A, AnyT) /\ SubStrict(A, NoAnn) /\ SubStrict(NoAnn, A)
                        /\ SubStrict(A, Ann(AnyT)) /\ SubStrict(A, TVar)
 (* Any is accepted only where everything is accepted *)
 LawAnyBottomless(B, U) == SubStrict(AnyT, B) => \A X \in U : SubStrict(X, B)
-(* union introduction: what B accepts, B | C accepts; a member is accepted by its union *)
-LawUnionIntro(A, B, C, f) == /\ (Sub(A, B, f) => (Sub(A, UnionOf(B, C), f) /\ Sub(A, UnionOf(C, B), f) /\ Sub(A, Opt(B), f)))
-                             /\ Sub(A, UnionOf(A, C), f) /\ Sub(NoneT, Opt(B), f)
-(* union elimination: a union source is accepted iff every member is *)
-LawUnionElim(A, B, C, f)  == /\ (Sub(UnionOf(A, C), B, f) <=> (Sub(A, B, f) /\ Sub(C, B, f)))
-                             /\ (Sub(Opt(A), B, f) <=> (Sub(A, B, f) /\ Sub(NoneT, B, f)))
-(* union target: a non-union source is accepted by B | C iff it is accepted by B or by C *)
-LawUnionTarget(A, B, C, f) == ~IsUnion(Strip(A)) => (Sub(A, UnionOf(B, C), f) <=> (Sub(A, B, f) \/ Sub(A, C, f)))
+(* The three union laws for one third annotation C (A, B, C without NoAnn):                          *)
+(*  introduction: what B accepts, B | C, C | B and Optional[B] accept; a member is accepted by its union; *)
+(*  elimination : a union source is accepted iff every member is;                                     *)
+(*  target      : a non-union source is accepted by B | C iff it is accepted by B or by C.            *)
+LawUnion(A, B, C, f) ==
+    LET sAB == Sub(A, B, f)
+        sCB == Sub(C, B, f)
+        sBC == Sub(A, UnionOf(B, C), f)
+    IN  /\ sAB => (sBC /\ Sub(A, UnionOf(C, B), f) /\ Sub(A, Opt(B), f))
+        /\ Sub(A, UnionOf(A, C), f) /\ Sub(NoneT, Opt(B), f)
+        /\ Sub(UnionOf(A, C), B, f) <=> (sAB /\ sCB)
+        /\ Sub(Opt(A), B, f) <=> (sAB /\ Sub(NoneT, B, f))
+        /\ ~IsUnion(Strip(A)) => (sBC <=> (sAB \/ Sub(A, C, f)))
 (* covariance of every constructor of the grammar (NoAnn never occurs as an argument) *)
 LawCovariant(A, B, f) ==
     (~HasNoAnn(A) /\ ~HasNoAnn(B)) =>
@@ -213,9 +218,9 @@ LawArity(A, B, f) == (~HasNoAnn(A) /\ ~HasNoAnn(B)) =>
                         /\ ~Sub(Tup1(A), Tup2(B, B), f)
                         /\ ~Sub(VTup(A), Tup1(B), f)
                         /\ Sub(Tup2(A, A), VTup(B), f) = Sub(A, B, f)
-(* transitivity on the don't-care-free fragment: the sound reading of every class, and no missing *)
-(* annotation in the middle (NoAnn is compatible both ways with everything, by design not an order) *)
-LawTransitive(A, B, C) == (~HasNoAnn(B) /\ SubStrict(A, B) /\ SubStrict(B, C)) => SubStrict(A, C)
+(* transitivity on the don't-care-free fragment: the sound reading of every class, and no missing  *)
+(* annotation in the middle (NoAnn is compatible both ways with everything: by design not an order) *)
+LawTransitive(A, B, U) == (~HasNoAnn(B) /\ SubStrict(A, B)) => \A C \in U : SubStrict(B, C) => SubStrict(A, C)
 
 ---------------------------------------------------------------------------
 (* 5. PIPELINE RULE.  An edge carries the producer's output annotation P to the consumer's        *)
